@@ -21,6 +21,7 @@
 #include <cctype>
 #include <cstdlib>
 #include <cerrno>
+#include <limits>
 
 namespace sbepp::sbeppc
 {
@@ -164,8 +165,26 @@ private:
             context.level_offset = current_offset;
         }
 
-        const auto enc_size = context.size;
-        current_offset += enc_size;
+        advance_offset(current_offset, context.size, f.location);
+    }
+
+    static void advance_offset(
+        offset_t& current_offset,
+        const std::size_t size,
+        const source_location& location)
+    {
+        // `current_offset + size` must not wrap around, otherwise following
+        // members would be placed over the previous ones
+        if(size > (std::numeric_limits<offset_t>::max() - current_offset))
+        {
+            throw_error(
+                "{}: offset ({}) plus encoding size ({}) does not fit into "
+                "`offset_t`",
+                location,
+                current_offset,
+                size);
+        }
+        current_offset += size;
     }
 
     static field_presence
@@ -1157,8 +1176,7 @@ private:
             context.offset_in_composite = current_offset;
         }
 
-        const auto enc_size = context.size;
-        current_offset += enc_size;
+        advance_offset(current_offset, context.size, element.location);
     }
 
     void validate_encoding(const sbe::composite& c)
